@@ -17,7 +17,7 @@ EXTENDS Integers, Sequences, FiniteSets, TLC
 CONSTANTS FixEarlyReturn,   \* see above
           Builds,           \* client inputs explored: subset of {"ok", "noname", "unset", "minver12"}
           HRRs,             \* subset of BOOLEAN: does the server force a HelloRetryRequest
-          MaxCut            \* how many HandleData calls may hand over only part of a queued CRYPTO chunk
+          MaxCut            \* how many HandleData calls may hand over only part of a queued CRYPTO chunk (bounded configurations)
 
 Sides   == {"c", "s"}
 Peer(e) == IF e = "c" THEN "s" ELSE "c"
@@ -60,10 +60,29 @@ ServerProg(cf) ==
 Prog(e, cf) == IF e = "c" THEN ClientProg(cf) ELSE ServerProg(cf)
 CheckFails(cf, what) == (what = "cert" /\ cf.cliRefuse) \/ (what = "alpn" /\ cf.srvRefuse)
 
-\* a CRYPTO stream is a sequence of units; a handshake message is two units (so that a cut can fall inside a message)
-Units(msgs) == [i \in 1..(2 * Len(msgs)) |-> << msgs[(i + 1) \div 2], IF i % 2 = 1 THEN 1 ELSE 2 >>]
-HasMsg(h, m) == Len(h) >= 2 /\ h[1] = <<m, 1>> /\ h[2] = <<m, 2>>
-WrongMsg(h, m) == Len(h) >= 1 /\ h[1][1] # m
+(* A CRYPTO stream is a sequence of segments [m, n, last]: n bytes of handshake message m, `last` iff they include its
+   final byte.  HandleData may be given ANY number of bytes (a cut may fall inside a message, a flight may arrive one
+   byte at a time); what the connection keeps is a COPY of them (c.hand.Write, quic.go:494): the caller owns its buffer
+   again as soon as HandleData has returned, so "the caller overwrites / reuses its receive buffer" is not an action of
+   this specification at all - it must be a stuttering step of the connection.
+   In the bounded configurations every message is 2 bytes long (one cut position inside each message). *)
+RECURSIVE Bytes(_), Take(_, _), Drop(_, _), Merge(_, _)
+Segs(msgs, lens) == [i \in 1..Len(msgs) |-> [m |-> msgs[i], n |-> lens[i], last |-> TRUE]]
+Bytes(s)   == IF s = << >> THEN 0 ELSE s[1].n + Bytes(Tail(s))
+Take(s, k) == IF k = 0 \/ s = << >> THEN << >>
+              ELSE IF s[1].n <= k THEN << s[1] >> \o Take(Tail(s), k - s[1].n)
+              ELSE << [s[1] EXCEPT !.n = k, !.last = FALSE] >>
+Drop(s, k) == IF k = 0 \/ s = << >> THEN s
+              ELSE IF s[1].n <= k THEN Drop(Tail(s), k - s[1].n)
+              ELSE << [s[1] EXCEPT !.n = @ - k] >> \o Tail(s)
+\* c.hand.Write(readbuf): bytes of the same, still incomplete message coalesce
+Merge(h, s) == IF s = << >> THEN h
+               ELSE IF h # << >> /\ ~h[Len(h)].last /\ h[Len(h)].m = s[1].m
+                    THEN Merge([h EXCEPT ![Len(h)] = [m |-> s[1].m, n |-> @.n + s[1].n, last |-> s[1].last]], Tail(s))
+                    ELSE Merge(Append(h, s[1]), Tail(s))
+\* the whole next message is in c.hand (Merge keeps at most one segment per incomplete message)
+HasMsg(h, m)   == h # << >> /\ h[1].m = m /\ h[1].last
+WrongMsg(h, m) == h # << >> /\ h[1].m # m
 
 Ev(kind, lv, msgs) == [kind |-> kind, lv |-> lv, msgs |-> msgs]
 \* quicWriteCryptoData (quic.go:398-412): data is appended to the last queued event if that is a WriteData of the same level
@@ -78,8 +97,8 @@ VARIABLES
   \* handshake goroutine of each side
   hpc,            \* "none" | "entry" | "build" | "run" | "waitBlocked" | "waitSignal" | "tail" | "closeB" | "closeS" | "exited"
   ip,             \* index into Prog
-  hand,           \* c.hand: units received and not yet consumed
-  readbuf,        \* quic.readbuf: units handed over by HandleData, not yet taken by the goroutine
+  hand,           \* c.hand: segments received and not yet consumed
+  readbuf,        \* quic.readbuf: segments handed over by HandleData, not yet copied by the goroutine
   evq,            \* quic.events not yet returned by NextEvent
   emitted,        \* history: every event ever queued (uncoalesced), for the ordering invariants
   blockedClosed, signalClosed, cancelSet, hsErr, complete,
@@ -90,7 +109,7 @@ VARIABLES
   failed,         \* a call on this side returned an error (the planned pump of UQuic_Scn stops feeding it)
   last,           \* what the last pump operation returned (the observable)
   \* the pump
-  wire,           \* wire[e]: chunks [lv, units] queued towards e
+  wire,           \* wire[e]: chunks [lv, segs] queued towards e
   started, closeCalled, cancelFired, ctxCancelled, cuts
 
 gvars == <<hpc, ip, hand, readbuf, evq, emitted, blockedClosed, signalClosed, cancelSet, hsErr, complete>>
@@ -182,7 +201,7 @@ HsCheck(e) ==
 \* readHandshake with the whole message in c.hand
 HsReadHave(e) ==
   /\ Running(e, "read") /\ HasMsg(hand[e], Cur(e).m)
-  /\ hand' = [hand EXCEPT ![e] = SubSeq(@, 3, Len(@))] /\ Step(e)
+  /\ hand' = [hand EXCEPT ![e] = Tail(@)] /\ Step(e)
   /\ UNCHANGED <<cfg, hpc, readbuf, evq, emitted, blockedClosed, signalClosed, cancelSet, hsErr, complete, cvars, pvars>>
 \* readHandshake -> quicReadHandshakeBytes -> quicWaitForSignal (quic.go:476-483): not enough bytes yet
 HsReadWait(e) ==
@@ -225,7 +244,7 @@ WaitSendBlocked(e) ==
 \* rendezvous on signalc with HandleData; the goroutine takes readbuf (quic.go:494-496)
 WaitSendSignal(e) ==
   /\ hpc[e] = "waitSignal" /\ cside = e /\ cpc = "hdSignal"
-  /\ hand' = [hand EXCEPT ![e] = @ \o readbuf[e]] /\ readbuf' = [readbuf EXCEPT ![e] = << >>]
+  /\ hand' = [hand EXCEPT ![e] = Merge(@, readbuf[e])] /\ readbuf' = [readbuf EXCEPT ![e] = << >>]     \* a copy
   /\ hpc' = [hpc EXCEPT ![e] = "run"] /\ cpc' = "hdBlocked"
   /\ UNCHANGED <<cfg, ip, evq, emitted, blockedClosed, signalClosed, cancelSet, hsErr, complete, cside, carg, failed, last, pvars>>
 \* `case <-c.quic.cancelc: return c.sendAlertLocked(alertCloseNotify)` in either select
@@ -276,33 +295,37 @@ CallStart(e) ==
   /\ UNCHANGED <<cfg, ip, hand, readbuf, evq, emitted, blockedClosed, signalClosed, cancelSet, hsErr, complete,
                  wire, closeCalled, cancelFired, ctxCancelled, cuts>>
 
-\* NextEvent (u_quic.go:68-86); a WriteData goes onto the wire towards the peer
-CallNext(e) ==
+\* NextEvent (u_quic.go:68-86); a WriteData goes onto the wire towards the peer; lens = byte length of each message in it
+CallNextL(e, lens) ==
   /\ cpc = "idle" /\ started[e]
   /\ IF evq[e] = << >>
      THEN /\ last' = [Res("Next", e, "ok") EXCEPT !.kind = "NoEvent"]
           /\ UNCHANGED <<evq, wire>>
      ELSE LET ev == Head(evq[e]) IN
+          /\ ev.kind = "WriteData" => (Len(lens) = Len(ev.msgs) /\ \A i \in 1..Len(lens) : lens[i] >= 1)
           /\ last' = [Res("Next", e, "ok") EXCEPT !.kind = ev.kind, !.lv = ev.lv, !.msgs = ev.msgs]
           /\ evq' = [evq EXCEPT ![e] = Tail(@)]
           /\ wire' = IF ev.kind = "WriteData"
-                     THEN [wire EXCEPT ![Peer(e)] = Append(@, [lv |-> ev.lv, units |-> Units(ev.msgs)])]
+                     THEN [wire EXCEPT ![Peer(e)] = Append(@, [lv |-> ev.lv, segs |-> Segs(ev.msgs, lens)])]
                      ELSE wire
   /\ UNCHANGED <<cfg, hpc, ip, hand, readbuf, emitted, blockedClosed, signalClosed, cancelSet, hsErr, complete,
                  cpc, cside, carg, failed, started, closeCalled, cancelFired, ctxCancelled, cuts>>
+\* bounded configurations: every message is 2 bytes long
+CallNext(e) == CallNextL(e, IF evq[e] = << >> THEN << >> ELSE [i \in 1..Len(Head(evq[e]).msgs) |-> 2])
 
-\* HandleData (u_quic.go:100-135) with the first k units of the oldest chunk (k = 0: the whole chunk)
+\* HandleData (u_quic.go:100-135) with the first k bytes of the oldest chunk (k = 0: the whole chunk)
 CallDeliver(e, k) ==
   /\ cpc = "idle" /\ started[e] /\ hpc[e] # "none" /\ ~closeCalled[e] /\ wire[e] # << >>
-  /\ LET ch == Head(wire[e])
-         n  == IF k = 0 THEN Len(ch.units) ELSE k IN
-     /\ k < Len(ch.units)
+  /\ LET ch  == Head(wire[e])
+         tot == Bytes(ch.segs)
+         n   == IF k = 0 THEN tot ELSE k IN
+     /\ k < tot
      /\ (k > 0 => cuts < MaxCut)
      /\ cuts' = IF k > 0 THEN cuts + 1 ELSE cuts
-     /\ readbuf' = [readbuf EXCEPT ![e] = SubSeq(ch.units, 1, n)]                      \* c.quic.readbuf = data
-     /\ wire' = [wire EXCEPT ![e] = IF n = Len(ch.units) THEN Tail(@)
-                                    ELSE << [ch EXCEPT !.units = SubSeq(@, n + 1, Len(@))] >> \o Tail(wire[e])]
-     /\ carg' = [u |-> n, rem |-> Len(ch.units) - n, lv |-> ch.lv]
+     /\ readbuf' = [readbuf EXCEPT ![e] = Take(ch.segs, n)]                            \* c.quic.readbuf = data
+     /\ wire' = [wire EXCEPT ![e] = IF n = tot THEN Tail(@)
+                                    ELSE << [ch EXCEPT !.segs = Drop(@, n)] >> \o Tail(wire[e])]
+     /\ carg' = [u |-> n, rem |-> tot - n, lv |-> ch.lv]
   /\ cpc' = "hdSignal" /\ cside' = e                                                  \* <-c.quic.signalc
   /\ UNCHANGED <<cfg, hpc, ip, hand, evq, emitted, blockedClosed, signalClosed, cancelSet, hsErr, complete,
                  failed, last, started, closeCalled, cancelFired, ctxCancelled>>
